@@ -471,6 +471,7 @@ func genFsSeq(rng *simrt.Rand, maxOps int, acBias bool) (dirs []string, ops []Fs
 	nextH := 1
 	chunk := uint64(0x10)
 	var appendH, readH []int
+	var chunks [][2]uint64 // (id, length) of every chunk written so far
 	pick := func(xs []int) (int, bool) {
 		if len(xs) == 0 {
 			return 0, false
@@ -528,6 +529,7 @@ func genFsSeq(rng *simrt.Rand, maxOps int, acBias bool) (dirs []string, ops []Fs
 			}
 			chunk++
 			op = FsOp{K: "append", H: h, ID: chunk, Len: size(), Scr: rng.Chance(1, 3)}
+			chunks = append(chunks, [2]uint64{chunk, uint64(op.Len)})
 			m.Append(h, model.Chunk(chunk, op.Len))
 		case 5:
 			all := append(append([]int{}, appendH...), readH...)
@@ -579,7 +581,21 @@ func genFsSeq(rng *simrt.Rand, maxOps int, acBias bool) (dirs []string, ops []Fs
 		case 13, 14:
 			chunk++
 			op = FsOp{K: "ac", D: d, N: name, ID: chunk, Len: size(), Scr: rng.Chance(1, 3)}
-			m.AtomicCreate(d, name, model.Chunk(chunk, op.Len))
+			if rng.Chance(1, 5) && len(ex) > 0 {
+				// exactly the bytes the name already holds (often while a
+				// descriptor of the old file is still open): still a new file
+				e := ex[rng.Intn(len(ex))]
+				cur, _ := m.Content(e[0], e[1])
+				for _, c := range chunks {
+					if c[1] == uint64(len(cur)) && bytes.Equal(model.Chunk(c[0], int(c[1])), cur) {
+						op.D, op.N, op.ID, op.Len = e[0], e[1], c[0], int(c[1])
+						chunk--
+						break
+					}
+				}
+			}
+			chunks = append(chunks, [2]uint64{op.ID, uint64(op.Len)})
+			m.AtomicCreate(op.D, op.N, model.Chunk(op.ID, op.Len))
 		default:
 			if !bulked && rng.Chance(1, 12) {
 				bulked = true
